@@ -514,7 +514,8 @@ Lemma replacer_positions (l : list cell) ps s e o1 o2 :
   exists a b, 0 <= a < b /\ b <= len l /\
     znth l a dcell = znth out s dcell /\ znth l (b - 1) dcell = znth out (e - 1) dcell /\
     get_input_pos io oo s = a /\ input_end true io oo s e = b /\
-    (~ In e (tab_out 0 0 (shapes ps)) -> input_end false io oo s e = b).
+    (~ In e (tab_out 0 0 (shapes ps)) -> input_end false io oo s e = b) /\
+    src_pos 0 0 (shapes ps) s = Some a /\ src_pos 0 0 (shapes ps) (e - 1) = Some (b - 1).
 Proof.
   intros Hwf out io oo Hse He Ho1 Ho2.
   apply wf_from_wfp in Hwf. rewrite len_map in Hwf. fold (shapes ps) in Hwf.
@@ -546,7 +547,7 @@ Proof.
     eapply lookup_src_next; [exact Hwf| | | |exact Eb]; lia. }
   exists a, (b1 + 1). replace (b1 + 1 - 1) with b1 by lia.
   split; [lia|]. split; [lia|]. split; [symmetry; exact Za|]. split; [symmetry; exact Zb|].
-  split; [exact Gs|]. split.
+  split; [exact Gs|]. split; [|split; [|split; [reflexivity | first [reflexivity | f_equal; lia]]]].
   - unfold input_end. destruct (s <? e) eqn:E; [|apply Z.ltb_ge in E; lia]. cbn [andb]. rewrite Ge1. lia.
   - intros Hn. unfold input_end. cbn [andb]. unfold io, oo.
     rewrite get_input_pos_lookup by (try assumption; lia).
@@ -647,6 +648,9 @@ Proof.
 Qed.
 Lemma transport_eq L a b d : transport L a b d = filter (beforeb a) L ++ map (shiftp d) (filter (afterb b) L).
 Proof. reflexivity. Qed.
+Lemma shiftp_start d p : p_start (shiftp d p) = p_start p + d. Proof. reflexivity. Qed.
+Lemma shiftp_end d p : p_end (shiftp d p) = p_end p + d. Proof. reflexivity. Qed.
+Lemma shiftp_old d p : p_old (shiftp d p) = p_old p. Proof. reflexivity. Qed.
 Lemma pcore_shiftp d p : pcore (shiftp d p) = (p_start p + d, p_end p + d, p_new p).
 Proof. reflexivity. Qed.
 Lemma shapes_cons p L : shapes (p :: L) = (p_start p, p_end p, len (p_new p)) :: shapes L.
@@ -744,7 +748,7 @@ Section Transport2.
             assert (Hq : In q (filter (afterb b) (p :: L))) by (rewrite EF; left; reflexivity).
             apply filter_In in Hq as [_ Hq]. unfold afterb in Hq. apply Z.leb_le in Hq.
             rewrite pcore_shiftp. cbn [fst]. lia. }
-        unfold t', delta. rewrite edit_sub_mid by (try assumption; lia). fold delta t'.
+        unfold t', delta. rewrite edit_sub_mid by (try assumption; lia).
         rewrite (splice_after t a b new Hab Hbl e (p :: L) ip op Hfull) by (try assumption; try lia; rewrite shapes_cons; cbn [src_pos]; exact He).
         cbn [map splice]. unfold pcore at 1 3.
         rewrite sub_app_l by lia. rewrite sub_sub_prefix by lia. rewrite <- app_assoc.
@@ -769,8 +773,7 @@ Section Transport2.
     pose proof (len_nonneg new) as Hn'.
     induction L as [|p L IH]; intros ip0 H Hb; cbn [map wf_from] in *.
     - unfold t', delta. rewrite edit_len by assumption. fold delta. unfold delta. lia.
-    - destruct H as (H1 & H2 & H3 & H4). unfold shiftp at 1 2 3 4 5.
-      unfold p_start, p_end, p_old; cbn [fst snd]. fold (p_start p) (p_end p) (p_old p).
+    - destruct H as (H1 & H2 & H3 & H4). rewrite !shiftp_start, !shiftp_end, shiftp_old.
       unfold t', delta. rewrite edit_len, edit_sub_after by (try assumption; lia). fold delta t'.
       repeat split; try (unfold delta; lia); try assumption. apply IH; [exact H4|lia].
   Qed.
@@ -800,6 +803,110 @@ Section Transport2.
         eapply wf_from_weaken; [apply (wf_after (p :: L) ip Hfull)|]. unfold delta. lia.
   Qed.
 End Transport2.
+
+(* ---------- F3. the transported patch list stays in sorted() order when the new text is not empty ---------- *)
+Fixpoint adj_sorted (l : list patch) : Prop :=
+  match l with
+  | [] => True
+  | p :: r => match r with [] => True | q :: _ => patch_leb p q = true end /\ adj_sorted r
+  end.
+
+Lemma sort_id : forall l, adj_sorted l -> sort_patches l = l.
+Proof.
+  induction l as [|p r IH]; intros H; cbn [sort_patches adj_sorted] in *; [reflexivity|].
+  destruct H as [H1 H2]. rewrite (IH H2). destruct r as [|q r']; cbn [insert_patch]; [reflexivity|].
+  rewrite H1. reflexivity.
+Qed.
+
+Lemma text_compare_antisym : forall a b, text_compare b a = CompOpp (text_compare a b).
+Proof.
+  induction a as [|x a IH]; intros [|y b]; cbn [text_compare CompOpp]; try reflexivity.
+  rewrite (Z.compare_antisym x y). destruct (x ?= y); cbn [CompOpp]; [apply IH|reflexivity|reflexivity].
+Qed.
+Lemma patch_compare_antisym p q : patch_compare q p = CompOpp (patch_compare p q).
+Proof.
+  unfold patch_compare.
+  rewrite (Z.compare_antisym (p_start p) (p_start q)). destruct (p_start p ?= p_start q); cbn [CompOpp]; try reflexivity.
+  rewrite (Z.compare_antisym (p_end p) (p_end q)). destruct (p_end p ?= p_end q); cbn [CompOpp]; try reflexivity.
+  rewrite (text_compare_antisym (p_old p) (p_old q)). destruct (text_compare (p_old p) (p_old q)); cbn [CompOpp]; try reflexivity.
+  apply text_compare_antisym.
+Qed.
+Lemma patch_leb_total p q : patch_leb p q = false -> patch_leb q p = true.
+Proof.
+  unfold patch_leb. rewrite (patch_compare_antisym p q). destruct (patch_compare p q); cbn [CompOpp]; congruence.
+Qed.
+
+Lemma insert_adj p : forall l, adj_sorted l -> adj_sorted (insert_patch p l).
+Proof.
+  induction l as [|q t IH]; intros H; cbn [insert_patch]; [cbn; auto|].
+  destruct (patch_leb p q) eqn:E; [cbn [adj_sorted]; split; [exact E|exact H]|].
+  cbn [adj_sorted] in H. destruct H as [H1 H2]. specialize (IH H2).
+  cbn [adj_sorted]. split; [|exact IH].
+  destruct t as [|r t']; cbn [insert_patch]; [apply patch_leb_total; exact E|].
+  destruct (patch_leb p r); [apply patch_leb_total; exact E | exact H1].
+Qed.
+Lemma sort_adj : forall l, adj_sorted (sort_patches l).
+Proof. induction l as [|p l IH]; cbn [sort_patches]; [exact I | apply insert_adj; exact IH]. Qed.
+
+Lemma adj_before t a : forall L ip, wf_from t ip L -> adj_sorted L -> adj_sorted (filter (beforeb a) L).
+Proof.
+  induction L as [|p r IH]; intros ip H Hs; [exact I|].
+  pose proof H as Hfull. cbn [wf_from] in H. destruct H as (H1 & H2 & H3 & H4).
+  cbn [adj_sorted] in Hs. destruct Hs as [Hs1 Hs2].
+  cbn [filter]. unfold beforeb at 1. destruct (p_end p <=? a) eqn:E; [|apply (IH (p_end p)); assumption].
+  specialize (IH (p_end p) H4 Hs2). cbn [adj_sorted]. split; [|exact IH].
+  destruct r as [|q r']; [exact I|]. cbn [filter] in *. unfold beforeb at 1. unfold beforeb at 1 in IH.
+  destruct (p_end q <=? a) eqn:E2; [exact Hs1|].
+  apply Z.leb_gt in E2. pose proof (before_nil_cons t a q r' (p_end p) H4 E2) as Hn.
+  cbn [filter] in Hn. unfold beforeb at 1 in Hn. destruct (p_end q <=? a) eqn:E3; [apply Z.leb_le in E3; lia|].
+  rewrite Hn. exact I.
+Qed.
+Lemma adj_after t b : forall L ip, wf_from t ip L -> adj_sorted L -> adj_sorted (filter (afterb b) L).
+Proof.
+  induction L as [|p r IH]; intros ip H Hs; [exact I|].
+  pose proof H as Hfull. cbn [wf_from] in H. destruct H as (H1 & H2 & H3 & H4).
+  cbn [filter]. unfold afterb at 1. destruct (b <=? p_start p) eqn:E.
+  - apply Z.leb_le in E. rewrite (after_all t b r (p_end p)) by (try assumption; lia). exact Hs.
+  - cbn [adj_sorted] in Hs. apply (IH (p_end p)); tauto.
+Qed.
+Lemma patch_leb_shift d p q : patch_leb (shiftp d p) (shiftp d q) = patch_leb p q.
+Proof.
+  unfold patch_leb, patch_compare. rewrite !shiftp_start, !shiftp_end, !shiftp_old.
+  rewrite !(Z.add_comm _ d), !Z.add_compare_mono_l. reflexivity.
+Qed.
+Lemma adj_shift d : forall L, adj_sorted L -> adj_sorted (map (shiftp d) L).
+Proof.
+  induction L as [|p r IH]; intros H; [exact I|]. cbn [map adj_sorted] in *. destruct H as [H1 H2].
+  split; [|apply IH; exact H2]. destruct r as [|q r']; [exact I|]. cbn [map]. rewrite patch_leb_shift. exact H1.
+Qed.
+Lemma adj_app : forall l1 l2, adj_sorted l1 -> adj_sorted l2 ->
+  (forall p q, In p l1 -> In q l2 -> patch_leb p q = true) -> adj_sorted (l1 ++ l2).
+Proof.
+  induction l1 as [|p r IH]; intros l2 H1 H2 H; [exact H2|]. cbn [app adj_sorted] in *. destruct H1 as [Ha Hb].
+  split; [|apply IH; [exact Hb|exact H2|intros; apply H; [right|]; assumption]].
+  destruct r as [|q r']; cbn [app]; [|exact Ha].
+  destruct l2 as [|q l2']; [exact I|]. apply H; left; reflexivity.
+Qed.
+Lemma wf_from_In t : forall L ip p, wf_from t ip L -> In p L -> ip <= p_start p <= p_end p.
+Proof.
+  induction L as [|q r IH]; intros ip p H Hin; [contradiction|]. cbn [wf_from] in H. destruct H as (H1 & H2 & H3 & H4).
+  destruct Hin as [->|Hin]; [lia|]. specialize (IH _ _ H4 Hin). lia.
+Qed.
+
+Lemma transport_sorted_auto (t : text) a b (new : text) L : wf_from t 0 L -> adj_sorted L -> new <> [] ->
+  sort_patches (transport L a b (len new - (b - a))) = transport L a b (len new - (b - a)).
+Proof.
+  intros Hwf Hs Hne. apply sort_id. rewrite transport_eq. apply adj_app.
+  - eapply adj_before; eassumption.
+  - apply adj_shift. eapply adj_after; eassumption.
+  - intros p q Hp Hq. apply filter_In in Hp as [Hp1 Hp2]. apply in_map_iff in Hq as (q0 & <- & Hq).
+    apply filter_In in Hq as [Hq1 Hq2]. unfold beforeb in Hp2. unfold afterb in Hq2.
+    apply Z.leb_le in Hp2. apply Z.leb_le in Hq2. pose proof (wf_from_In _ _ _ _ Hwf Hp1) as Hp3.
+    assert (0 < len new) by (destruct new; [congruence|rewrite len_cons; pose proof (len_nonneg new); lia]).
+    unfold patch_leb, patch_compare. rewrite shiftp_start.
+    assert (Hlt : p_start p < p_start q0 + (len new - (b - a))) by lia.
+    apply Z.compare_lt_iff in Hlt. rewrite Hlt. reflexivity.
+Qed.
 
 (* @@F2END *)
 (* ---------- G. one Combiner level ---------- *)
@@ -919,15 +1026,49 @@ Definition ends_ok (fixed : bool) (b : builder) (s e : Z) : Prop := fixed = true
 Definition ends_ok_parts (fixed : bool) (ps : parts) (k : nat) (s e : Z) : Prop :=
   fixed = true \/ no_entry_parts ps k s e.
 
+Lemma apply_patch_app_l {A} (X Y : list A) s e new : 0 <= s <= e -> e <= len X ->
+  apply_patch (X ++ Y) s e new = apply_patch X s e new ++ Y.
+Proof.
+  intros Hs He. unfold apply_patch. rewrite sub_app_l, from_app_l by lia. rewrite <- !app_assoc. reflexivity.
+Qed.
+Lemma apply_patch_app_r {A} (X Y : list A) s e new : len X <= s -> len X <= e ->
+  apply_patch (X ++ Y) s e new = X ++ apply_patch Y (s - len X) (e - len X) new.
+Proof.
+  intros Hs He. unfold apply_patch. rewrite sub0_app_ge, from_app_r by lia. rewrite <- !app_assoc. reflexivity.
+Qed.
+
+(* what is proved about a range [s,e) of b's output whose first / last characters are characters i / j-1 of
+   the Text at `path` *)
+Definition rangeC (fixed : bool) (b : builder) (s e : Z) (new : text) (path : list nat) (i j : Z) : Prop :=
+  let p := (s, e, sub (map fst (prender b)) s e, new) in
+  exists t v, leaf_at b path = Some (t, v) /\
+    map_back fixed b p = Ok (Some (t, v, (i, j, sub t i j, new))) /\
+    (new <> [] \/ transport_sorted fixed b p ->
+     wf_builder (rebuild fixed b p) /\
+     render (rebuild fixed b p) = Ok (apply_patch (map fst (prender b)) s e new) /\
+     leaf_at (rebuild fixed b p) path = Some (apply_patch t i j new, v)).
+
+Definition partsC (fixed : bool) (ps : parts) (ts : list text) (s e : Z) (new : text)
+                  (k : nat) (path : list nat) (i j : Z) : Prop :=
+  let off := off_of ts k in
+  let p' := (s - off, e - off, sub (concat ts) s e, new) in
+  in_part ts k s /\ in_part ts k (e - 1) /\
+  (ends_ok_parts fixed ps k (s - off) (e - off) ->
+   exists t v, leaf_parts ps k path = Some (t, v) /\
+     map_back_parts fixed ps k p' = Ok (Some (t, v, (i, j, sub t i j, new))) /\
+     (new <> [] \/ transport_sorted_parts fixed ps k p' ->
+      wf_parts (rebuild_parts fixed ps k p') /\
+      exists ts2, render_parts (rebuild_parts fixed ps k p') = Ok ts2 /\
+        concat ts2 = apply_patch (concat ts) s e new /\
+        leaf_parts (rebuild_parts fixed ps k p') k path = Some (apply_patch t i j new, v))).
+
 Definition exactP (fixed : bool) (b : builder) : Prop :=
   wf_builder b ->
   render b = Ok (map fst (prender b)) /\
   forall s e new path i j, 0 <= s < e -> e <= len (prender b) ->
     snd (znth (prender b) s dcell) = Some (path, i) ->
     snd (znth (prender b) (e - 1) dcell) = Some (path, j - 1) ->
-    ends_ok fixed b s e ->
-    exists t v, leaf_at b path = Some (t, v) /\
-      map_back fixed b (s, e, sub (map fst (prender b)) s e, new) = Ok (Some (t, v, (i, j, sub t i j, new))).
+    ends_ok fixed b s e -> rangeC fixed b s e new path i j.
 
 Definition exactQ (fixed : bool) (ps : parts) : Prop :=
   wf_parts ps ->
@@ -935,11 +1076,7 @@ Definition exactQ (fixed : bool) (ps : parts) : Prop :=
   forall s e new path0 i j, 0 <= s < e -> e <= len (prender_parts ps) ->
     snd (znth (prender_parts ps) s dcell) = Some (path0, i) ->
     snd (znth (prender_parts ps) (e - 1) dcell) = Some (path0, j - 1) ->
-    exists k path, path0 = k :: path /\ in_part ts k s /\ in_part ts k (e - 1) /\
-      (ends_ok_parts fixed ps k (s - off_of ts k) (e - off_of ts k) ->
-       exists t v, leaf_parts ps k path = Some (t, v) /\
-         map_back_parts fixed ps k (s - off_of ts k, e - off_of ts k, sub (concat ts) s e, new)
-         = Ok (Some (t, v, (i, j, sub t i j, new)))).
+    exists k path, path0 = k :: path /\ partsC fixed ps ts s e new k path i j.
 
 Lemma exact_text fixed t v : exactP fixed (BText t v).
 Proof.
@@ -948,8 +1085,12 @@ Proof.
   assert (Hl : len (annot t 0) = len t) by (rewrite <- (fst_annot t 0) at 2; rewrite len_map; reflexivity).
   rewrite Hl in He. rewrite znth_annot in Hs, He1 by lia. cbn [snd] in Hs, He1.
   inversion Hs; subst path i. inversion He1 as [Hj]. assert (j = e) by lia. subst j.
-  exists t, v. split; [reflexivity|]. cbn [map_back].
-  unfold p_start, p_end, p_old; cbn [fst snd]. rewrite py_slice_sub by lia. rewrite text_eqb_refl. reflexivity.
+  unfold rangeC. cbn [prender]. rewrite fst_annot.
+  exists t, v. split; [reflexivity|]. split.
+  - cbn [map_back]. unfold p_start, p_end, p_old; cbn [fst snd]. rewrite py_slice_sub by lia.
+    rewrite text_eqb_refl. reflexivity.
+  - intros _. cbn [rebuild wf_builder render leaf_at]. unfold p_start, p_end, p_new; cbn [fst snd].
+    split; [exact I|]. split; reflexivity.
 Qed.
 
 Lemma exact_replacer fixed inner ps : exactP fixed inner -> exactP fixed (BReplacer inner ps).
@@ -957,34 +1098,92 @@ Proof.
   intros IH [Hwi Hwf]. destruct (IH Hwi) as [Hri IHm]. rewrite Hri in Hwf.
   set (l := prender inner) in *. set (sps := sort_patches ps) in *.
   destruct (prender_replacer_splice l sps Hwf) as [Hpr Hfst].
-  assert (Hinit := replacer_init_ok _ _ Hwf). fold sps in Hinit.
+  assert (Hinit := replacer_init_ok _ _ Hwf). fold sps in Hinit. fold (shapes sps) in Hinit.
   assert (Hrender : render (BReplacer inner ps) = Ok (map fst (prender (BReplacer inner ps)))).
   { cbn [render prender]. rewrite Hri. cbn [bind]. rewrite Hinit. cbn [bind snd]. fold l sps.
     rewrite Hpr, Hfst. reflexivity. }
   split; [exact Hrender|].
-  intros s e new path i j Hse He Hs He1 Hok.
+  intros s e new path i j Hse He Hs He1 Hok. unfold rangeC.
   cbn [prender] in *. fold l sps in Hs, He1, He |- *. rewrite Hpr in Hs, He1, He |- *.
   destruct (replacer_positions l sps s e _ _ Hwf Hse He Hs He1)
-    as (a & b & Hab & Hb & Za & Zb & Gs & Gt & Gf).
-  cbn [map_back]. rewrite Hri. cbn [bind]. rewrite Hinit. cbn [bind].
-  unfold validate_patch, p_start, p_end, p_old, p_new; cbn [fst snd].
-  rewrite <- Hfst.
-  rewrite py_slice_sub by (unfold cell in *; rewrite len_map; lia). rewrite text_eqb_refl.
-  fold (shapes sps).
-  assert (Gend : input_end fixed (0 :: tab_in 0 0 (shapes sps)) (0 :: tab_out 0 0 (shapes sps)) s e = b
-                 /\ ends_ok fixed inner a b).
+    as (a & b & Hab & Hb & Za & Zb & Gs & Gt & Gf & Sa & Sb).
+  set (io := 0 :: tab_in 0 0 (shapes sps)) in *. set (oo := 0 :: tab_out 0 0 (shapes sps)) in *.
+  assert (Gend : input_end fixed io oo s e = b /\ ends_ok fixed inner a b).
   { destruct fixed.
     - split; [exact Gt | left; reflexivity].
     - destruct Hok as [Hd|Hn]; [discriminate|].
       cbn [no_entry_at_end] in Hn. rewrite Hri in Hn. cbn [bind] in Hn. rewrite Hinit in Hn. cbn [tl] in Hn.
-      fold (shapes sps) in Hn. destruct Hn as [Hn1 Hn2]. specialize (Gf Hn1). split; [exact Gf|].
+      fold io oo in Hn. destruct Hn as [Hn1 Hn2]. specialize (Gf Hn1). split; [exact Gf|].
       right. rewrite Gs in Hn2. unfold input_end in Gf. cbn [andb] in Gf. rewrite Gf in Hn2. exact Hn2. }
-  destruct Gend as [Gend Hok']. rewrite Gs, Gend.
-  unfold make_patch. rewrite py_slice_sub by (unfold cell in *; rewrite len_map; lia).
-  apply IHm; try assumption; try lia.
-  - rewrite Za. exact Hs.
-  - rewrite Zb. exact He1.
+  destruct Gend as [Gend Hok'].
+  set (t := map fst l) in *.
+  assert (Hlt : len t = len l) by (unfold t; apply len_map).
+  assert (Hlo : len (map fst (splice l 0 (map acore sps))) = len (splice l 0 (map acore sps))) by apply len_map.
+  destruct (IHm a b new path i j) as (tx & v & Hleaf & Hmb & Hrb); try assumption; try lia;
+    [rewrite Za; exact Hs | rewrite Zb; exact He1 |].
+  fold t in Hmb, Hrb.
+  exists tx, v. split; [exact Hleaf|].
+  (* the patch handed to the inner builder *)
+  assert (Hin : make_patch t a b new = (a, b, sub t a b, new)).
+  { unfold make_patch. rewrite py_slice_sub by lia. reflexivity. }
+  split.
+  - cbn [map_back]. rewrite Hri. cbn [bind]. rewrite Hinit. cbn [bind]. fold io oo.
+    unfold validate_patch, p_start, p_end, p_old, p_new; cbn [fst snd].
+    rewrite <- Hfst. rewrite py_slice_sub by lia. rewrite text_eqb_refl.
+    rewrite Gs, Gend. fold t. rewrite Hin. exact Hmb.
+  - intros Hts0. cbn [rebuild]. rewrite Hri. cbn [bind]. rewrite Hinit. cbn [bind].
+    unfold p_start, p_end, p_new; cbn [fst snd]. rewrite Gs, Gend, Hin.
+    assert (Hts : sort_patches (transport sps a b (len new - (b - a))) = transport sps a b (len new - (b - a))
+                  /\ (new <> [] \/ transport_sorted fixed inner (a, b, sub t a b, new))).
+    { destruct Hts0 as [Hne|Hts].
+      - split; [|left; exact Hne]. apply (transport_sorted_auto t); [exact Hwf | apply sort_adj | exact Hne].
+      - cbn [transport_sorted] in Hts. rewrite Hri in Hts. cbn [bind] in Hts. rewrite Hinit in Hts. cbn [bind] in Hts.
+        unfold p_start, p_end, p_new in Hts; cbn [fst snd] in Hts. rewrite Gs, Gend, Hin in Hts.
+        destruct Hts as [Hsort Hts']. split; [exact Hsort | right; exact Hts']. }
+    destruct Hts as [Hsort Hts']. destruct (Hrb Hts') as (Hw' & Hr' & Hl').
+    subst t l sps io oo.
+    set (t := map fst (prender inner)) in *.
+    set (L' := transport (sort_patches ps) a b (len new - (b - a))) in *.
+    assert (Happ : apply_patch t a b new = (sub t 0 a ++ new) ++ from t b)
+      by (unfold apply_patch; rewrite app_assoc; reflexivity).
+    assert (HwL : wf_from (apply_patch t a b new) 0 (sort_patches L')).
+    { rewrite Hsort, Happ. unfold L'. apply wf_transport; try assumption; lia. }
+    split; [|split].
+    + cbn [wf_builder]. split; [exact Hw'|]. rewrite Hr'. exact HwL.
+    + cbn [render]. rewrite Hr'. cbn [bind]. rewrite (replacer_init_ok _ _ HwL). cbn [bind snd].
+      rewrite Hsort, Happ. unfold L'.
+      rewrite (splice_transport t a b new) with (s := s) (e := e) (op := 0); try assumption; try lia.
+      rewrite !Z.sub_0_r. rewrite <- Hfst. reflexivity.
+    + cbn [leaf_at]. exact Hl'.
 Qed.
+
+Lemma combiner_index ts s k : in_part ts k s ->
+  Z.to_nat (bisect_right (part_offsets 0 ts) s - 1) = k /\
+  py_index (part_offsets 0 ts) (bisect_right (part_offsets 0 ts) s - 1) = off_of ts k.
+Proof.
+  intros H1. rewrite bisect_right_sorted by apply part_offsets_sorted.
+  replace s with (s - 0) in H1 by lia. destruct (in_part_count _ _ _ _ H1) as (C1 & N1 & _).
+  rewrite C1. replace (Z.of_nat k + 1 - 1) with (Z.of_nat k) by lia. rewrite Nat2Z.id. split; [reflexivity|].
+  unfold py_index. destruct (Z.of_nat k <? 0) eqn:E4; [apply Z.ltb_lt in E4; lia|].
+  rewrite Nat2Z.id, N1. reflexivity.
+Qed.
+Lemma combiner_rebuild fixed ps ts s e old new k : render_parts ps = Ok ts -> in_part ts k s ->
+  rebuild fixed (BCombiner ps) (s, e, old, new)
+  = BCombiner (rebuild_parts fixed ps k (s - off_of ts k, e - off_of ts k, old, new)).
+Proof.
+  intros Hr H1. cbn [rebuild]. rewrite Hr. cbv zeta. unfold p_start, p_end, p_old, p_new; cbn [fst snd].
+  destruct (combiner_index ts s k H1) as [-> ->]. reflexivity.
+Qed.
+Lemma combiner_transport_sorted fixed ps ts s e old new k : render_parts ps = Ok ts -> in_part ts k s ->
+  transport_sorted fixed (BCombiner ps) (s, e, old, new)
+  = transport_sorted_parts fixed ps k (s - off_of ts k, e - off_of ts k, old, new).
+Proof.
+  intros Hr H1. cbn [transport_sorted]. rewrite Hr. cbv zeta. unfold p_start, p_end, p_old, p_new; cbn [fst snd].
+  destruct (combiner_index ts s k H1) as [-> ->]. reflexivity.
+Qed.
+
+Lemma render_combiner ps : render (BCombiner ps) = bind (render_parts ps) (fun ts => Ok (concat ts)).
+Proof. reflexivity. Qed.
 
 Lemma exact_combiner fixed ps : exactQ fixed ps -> exactP fixed (BCombiner ps).
 Proof.
@@ -993,10 +1192,18 @@ Proof.
   intros s e new path0 i j Hse He Hs He1 Hok. cbn [prender] in *.
   destruct (IHm s e new path0 i j Hse He Hs He1) as (k & path & -> & P1 & P2 & Hm).
   assert (Hlen : len (concat ts) = len (prender_parts ps)) by (rewrite Hc; apply len_map).
-  rewrite <- Hc.
-  rewrite (combiner_select fixed ps ts s e _ new k k Hr eq_refl) by (try assumption; lia).
-  rewrite Nat.eqb_refl. cbn [leaf_at]. apply Hm.
-  destruct Hok as [Hf|Hn]; [left; exact Hf|right]. rewrite (combiner_no_entry ps ts s e k Hr P1) in Hn. exact Hn.
+  unfold rangeC. cbn [prender]. rewrite <- Hc.
+  destruct Hm as (t & v & Hleaf & Hmb & Hrb).
+  { destruct Hok as [Hf|Hn]; [left; exact Hf|right].
+    rewrite (combiner_no_entry ps ts s e k Hr P1) in Hn. exact Hn. }
+  exists t, v. split; [exact Hleaf|]. split.
+  - rewrite (combiner_select fixed ps ts s e _ new k k Hr eq_refl) by (try assumption; lia).
+    rewrite Nat.eqb_refl. exact Hmb.
+  - rewrite (combiner_transport_sorted fixed ps ts s e _ new k Hr P1).
+    rewrite (combiner_rebuild fixed ps ts s e _ new k Hr P1).
+    intros Hts. destruct (Hrb Hts) as (Hw' & ts2 & Hr2 & Hc2 & Hl2).
+    split; [exact Hw'|]. split; [|exact Hl2].
+    rewrite render_combiner, Hr2. cbn [bind]. rewrite Hc2. reflexivity.
 Qed.
 
 Lemma exact_pnil fixed : exactQ fixed PNil.
@@ -1005,26 +1212,17 @@ Proof.
   intros s e new path0 i j Hse He. cbn [prender_parts] in He. unfold len in He; cbn in He. lia.
 Qed.
 
-(* shifting a range of (first part ++ rest) into the rest *)
-Lemma shift_rest fixed (first : list cell) t0 rest ts' s e new path0 i j :
+(* a range of (first part ++ rest) that starts after the first part lies in the rest *)
+Lemma shift_rest fixed (first : list cell) (t0 : text) rest ts' s e new path0 i j :
   len first = len t0 ->
   (forall s e new path0 i j, 0 <= s < e -> e <= len (prender_parts rest) ->
     snd (znth (prender_parts rest) s dcell) = Some (path0, i) ->
     snd (znth (prender_parts rest) (e - 1) dcell) = Some (path0, j - 1) ->
-    exists k path, path0 = k :: path /\ in_part ts' k s /\ in_part ts' k (e - 1) /\
-      (ends_ok_parts fixed rest k (s - off_of ts' k) (e - off_of ts' k) ->
-       exists t v, leaf_parts rest k path = Some (t, v) /\
-         map_back_parts fixed rest k (s - off_of ts' k, e - off_of ts' k, sub (concat ts') s e, new)
-         = Ok (Some (t, v, (i, j, sub t i j, new))))) ->
+    exists k path, path0 = k :: path /\ partsC fixed rest ts' s e new k path i j) ->
   len t0 <= s < e -> e <= len (first ++ map bump (prender_parts rest)) ->
   snd (znth (first ++ map bump (prender_parts rest)) s dcell) = Some (path0, i) ->
   snd (znth (first ++ map bump (prender_parts rest)) (e - 1) dcell) = Some (path0, j - 1) ->
-  exists k path, path0 = S k :: path /\ in_part ts' k (s - len t0) /\ in_part ts' k (e - 1 - len t0) /\
-    (ends_ok_parts fixed rest k (s - (len t0 + off_of ts' k)) (e - (len t0 + off_of ts' k)) ->
-     exists t v, leaf_parts rest k path = Some (t, v) /\
-       map_back_parts fixed rest k (s - (len t0 + off_of ts' k), e - (len t0 + off_of ts' k),
-                                    sub (t0 ++ concat ts') s e, new)
-       = Ok (Some (t, v, (i, j, sub t i j, new)))).
+  exists k path, path0 = S k :: path /\ partsC fixed rest ts' (s - len t0) (e - len t0) new k path i j.
 Proof.
   intros Hl IHm Hse He Hs He1.
   rewrite len_app, len_map in He.
@@ -1032,13 +1230,54 @@ Proof.
   apply bump_inv in Hs as (p1 & Hs & Hp1). apply bump_inv in He1 as (p2 & He1 & Hp2).
   assert (p2 = p1) by (apply bump_path_inj; congruence). subst p2.
   replace (e - 1 - len t0) with (e - len t0 - 1) in He1 by lia.
-  destruct (IHm (s - len t0) (e - len t0) new p1 i j) as (k & path & -> & P1 & P2 & Hm); try assumption; try lia.
-  exists k, path. split; [exact Hp1|]. split; [exact P1|].
-  split; [replace (e - 1 - len t0) with (e - len t0 - 1) by lia; exact P2|].
-  intros Hok. rewrite sub_app_r by lia.
-  replace (s - (len t0 + off_of ts' k)) with (s - len t0 - off_of ts' k) in * by lia.
-  replace (e - (len t0 + off_of ts' k)) with (e - len t0 - off_of ts' k) in * by lia.
-  apply Hm. exact Hok.
+  destruct (IHm (s - len t0) (e - len t0) new p1 i j) as (k & path & -> & HC); try assumption; try lia.
+  exists k, path. split; [exact Hp1|exact HC].
+Qed.
+
+(* the coordinates of a range of the rest, seen from the whole list *)
+Lemma shifted_patch (t0 : text) ts' s e (new : text) k : len t0 <= s ->
+  (s - off_of (t0 :: ts') (S k), e - off_of (t0 :: ts') (S k), sub (concat (t0 :: ts')) s e, new)
+  = (s - len t0 - off_of ts' k, e - len t0 - off_of ts' k, sub (concat ts') (s - len t0) (e - len t0), new).
+Proof.
+  intros Hs. cbn [off_of concat]. rewrite sub_app_r by lia.
+  replace (s - (len t0 + off_of ts' k)) with (s - len t0 - off_of ts' k) by lia.
+  replace (e - (len t0 + off_of ts' k)) with (e - len t0 - off_of ts' k) by lia. reflexivity.
+Qed.
+
+Lemma partsC_plit fixed t0 rest ts' s e new k path i j : render_parts rest = Ok ts' -> len t0 <= s <= e ->
+  partsC fixed rest ts' (s - len t0) (e - len t0) new k path i j ->
+  partsC fixed (PLit t0 rest) (t0 :: ts') s e new (S k) path i j.
+Proof.
+  intros Hr Hs (P1 & P2 & Hm). unfold partsC. cbv zeta. rewrite shifted_patch by lia.
+  cbn [in_part]. split; [exact P1|]. split; [replace (e - 1 - len t0) with (e - len t0 - 1) by lia; exact P2|].
+  cbn [off_of]. replace (s - (len t0 + off_of ts' k)) with (s - len t0 - off_of ts' k) by lia.
+  replace (e - (len t0 + off_of ts' k)) with (e - len t0 - off_of ts' k) by lia.
+  intros Hok. destruct (Hm Hok) as (t & v & Hleaf & Hmb & Hrb).
+  exists t, v. split; [exact Hleaf|]. split; [exact Hmb|].
+  cbn [transport_sorted_parts rebuild_parts wf_parts leaf_parts].
+  intros Hts. destruct (Hrb Hts) as (Hw' & ts2 & Hr2 & Hc2 & Hl2).
+  split; [exact Hw'|]. exists (t0 :: ts2). cbn [render_parts]. rewrite Hr2. cbn [bind].
+  split; [reflexivity|]. split; [|exact Hl2].
+  cbn [concat]. rewrite Hc2. rewrite apply_patch_app_r by lia. reflexivity.
+Qed.
+
+Lemma partsC_psub_tail fixed b t0 rest ts' s e new k path i j :
+  wf_builder b -> render b = Ok t0 -> render_parts rest = Ok ts' -> len t0 <= s <= e ->
+  partsC fixed rest ts' (s - len t0) (e - len t0) new k path i j ->
+  partsC fixed (PSub b rest) (t0 :: ts') s e new (S k) path i j.
+Proof.
+  intros Hwb Hrb0 Hr Hs (P1 & P2 & Hm). unfold partsC. cbv zeta. rewrite shifted_patch by lia.
+  cbn [in_part]. split; [exact P1|]. split; [replace (e - 1 - len t0) with (e - len t0 - 1) by lia; exact P2|].
+  cbn [off_of]. replace (s - (len t0 + off_of ts' k)) with (s - len t0 - off_of ts' k) by lia.
+  replace (e - (len t0 + off_of ts' k)) with (e - len t0 - off_of ts' k) by lia.
+  intros Hok. destruct (Hm Hok) as (t & v & Hleaf & Hmb & Hrb).
+  exists t, v. split; [exact Hleaf|]. split; [exact Hmb|].
+  cbn [transport_sorted_parts rebuild_parts wf_parts leaf_parts].
+  intros Hts. destruct (Hrb Hts) as (Hw' & ts2 & Hr2 & Hc2 & Hl2).
+  split; [split; [exact Hwb|exact Hw']|]. exists (t0 :: ts2). cbn [render_parts]. rewrite Hrb0. cbn [bind].
+  rewrite Hr2. cbn [bind].
+  split; [reflexivity|]. split; [|exact Hl2].
+  cbn [concat]. rewrite Hc2. rewrite apply_patch_app_r by lia. reflexivity.
 Qed.
 
 Lemma exact_plit fixed t rest : exactQ fixed rest -> exactQ fixed (PLit t rest).
@@ -1050,11 +1289,9 @@ Proof.
   assert (Hl : len (generated t) = len t) by apply len_map.
   destruct (Z_lt_le_dec s (len t)) as [Hlt|Hge].
   { rewrite znth_app_l in Hs by lia. rewrite znth_generated in Hs. discriminate. }
-  destruct (shift_rest fixed (generated t) t rest ts' s e new path0 i j Hl IHm) as (k & path & -> & P1 & P2 & Hm);
+  destruct (shift_rest fixed (generated t) t rest ts' s e new path0 i j Hl IHm) as (k & path & -> & HC);
     try assumption; try lia.
-  exists (S k), path. split; [reflexivity|]. cbn [in_part off_of concat]. split; [exact P1|]. split; [exact P2|].
-  intros Hok. cbn [leaf_parts map_back_parts]. apply Hm.
-  destruct Hok as [Hf|Hn]; [left; exact Hf|right; exact Hn].
+  exists (S k), path. split; [reflexivity|]. apply partsC_plit; try assumption. lia.
 Qed.
 
 Lemma exact_psub fixed b rest : exactP fixed b -> exactQ fixed rest -> exactQ fixed (PSub b rest).
@@ -1076,14 +1313,21 @@ Proof.
       apply bump_inv in He1 as (p2 & _ & Hp2). destruct p2; discriminate. }
     rewrite znth_app_l in He1 by lia. rewrite znth_map_d in He1 by reflexivity.
     apply push_inv in He1 as (path' & He1 & Heq). inversion Heq; subst path'.
-    exists O, path. split; [reflexivity|]. cbn [in_part off_of]. split; [lia|]. split; [lia|].
-    intros Hok. cbn [leaf_parts map_back_parts concat]. rewrite !Z.sub_0_r in *.
-    rewrite sub_app_l by lia. unfold t0. apply IHbm; try assumption; try lia.
+    exists O, path. split; [reflexivity|]. unfold partsC. cbv zeta. cbn [in_part off_of concat].
+    rewrite !Z.sub_0_r. rewrite sub_app_l by lia.
+    split; [lia|]. split; [lia|].
+    intros Hok. destruct (IHbm s e new path i j) as (t & v & Hleaf & Hmb & Hrb'); try assumption; try lia.
+    fold t0 in Hmb, Hrb'.
+    exists t, v. split; [exact Hleaf|]. split; [exact Hmb|].
+    cbn [transport_sorted_parts rebuild_parts wf_parts leaf_parts].
+    intros Hts. destruct (Hrb' Hts) as (Hw' & Hr' & Hl').
+    split; [split; assumption|]. exists (apply_patch t0 s e new :: ts').
+    cbn [render_parts]. rewrite Hr'. cbn [bind]. rewrite Hr. cbn [bind].
+    split; [reflexivity|]. split; [|exact Hl'].
+    cbn [concat]. rewrite apply_patch_app_l by lia. reflexivity.
   - destruct (shift_rest fixed (map (push 0) (prender b)) t0 rest ts' s e new path0 i j Hl IHm)
-      as (k & path & -> & P1 & P2 & Hm); try assumption; try lia.
-    exists (S k), path. split; [reflexivity|]. cbn [in_part off_of concat]. split; [exact P1|]. split; [exact P2|].
-    intros Hok. cbn [leaf_parts map_back_parts]. apply Hm.
-    destruct Hok as [Hf|Hn]; [left; exact Hf|right; exact Hn].
+      as (k & path & -> & HC); try assumption; try lia.
+    exists (S k), path. split; [reflexivity|]. apply (partsC_psub_tail fixed b); try assumption. lia.
 Qed.
 
 Theorem exact_all fixed : (forall b, exactP fixed b) /\ (forall ps, exactQ fixed ps).
@@ -1109,13 +1353,22 @@ Proof.
   rewrite (apply_sorted_splice t _ 0) by (apply wf_from_wfp; exact Hw). reflexivity.
 Qed.
 
+Lemma range_gen fixed b s e new path i j : wf_builder b -> 0 <= s < e -> e <= len (prender b) ->
+  snd (znth (prender b) s dcell) = Some (path, i) ->
+  snd (znth (prender b) (e - 1) dcell) = Some (path, j - 1) ->
+  fixed = true \/ no_entry_at_end b s e -> rangeC fixed b s e new path i j.
+Proof. intros H. apply (proj2 (proj1 (exact_all fixed) b H)). Qed.
+
 Lemma endpoints_gen fixed b s e new path i j : wf_builder b -> 0 <= s < e -> e <= len (prender b) ->
   snd (znth (prender b) s dcell) = Some (path, i) ->
   snd (znth (prender b) (e - 1) dcell) = Some (path, j - 1) ->
   fixed = true \/ no_entry_at_end b s e ->
   exists t v, leaf_at b path = Some (t, v) /\
     map_back fixed b (s, e, sub (map fst (prender b)) s e, new) = Ok (Some (t, v, (i, j, sub t i j, new))).
-Proof. intros H. apply (proj2 (proj1 (exact_all fixed) b H)). Qed.
+Proof.
+  intros H1 H2 H3 H4 H5 H6. destruct (range_gen fixed b s e new path i j H1 H2 H3 H4 H5 H6) as (t & v & Ha & Hb & _).
+  exists t, v. split; assumption.
+Qed.
 
 Lemma map_back_parts_lit fixed : forall ps k p, part_is_lit ps k = true -> map_back_parts fixed ps k p = Ok None.
 Proof.
@@ -1153,4 +1406,54 @@ Proof.
   rewrite len_app in Hs. destruct (Z_lt_le_dec s (len t)) as [Hlt|Hge].
   - exists O. cbn [in_part]. lia.
   - destruct (IH (s - len t)) as [k Hk]; [lia|]. exists (S k). exact Hk.
+Qed.
+
+(* ---------- J. map_back_offset, make_patch ---------- *)
+Fixpoint replacer_chain (b : builder) : Prop :=
+  match b with
+  | BText _ _ => True
+  | BReplacer inner _ => replacer_chain inner
+  | BCombiner _ => False
+  end.
+
+Lemma offset_exact : forall b k path i, wf_builder b -> replacer_chain b -> 0 <= k < len (prender b) ->
+  snd (znth (prender b) k dcell) = Some (path, i) -> map_back_offset b k = Ok i.
+Proof.
+  unfold map_back_offset.
+  induction b as [t v|inner IH ps|ps]; intros k path i Hwf Hch Hk Hs; cbn [replacer_chain] in Hch; [| |contradiction].
+  - cbn [offset_through prender] in *.
+    assert (Hl : len (annot t 0) = len t) by (rewrite <- (fst_annot t 0) at 2; rewrite len_map; reflexivity).
+    rewrite znth_annot in Hs by lia. cbn [snd] in Hs. inversion Hs. f_equal; try lia.
+  - pose proof Hwf as [Hwi Hw]. pose proof (render_prender inner Hwi) as Hri. rewrite Hri in Hw.
+    destruct (prender_replacer_splice (prender inner) (sort_patches ps) Hw) as [Hpr _].
+    cbn [prender] in Hk, Hs. rewrite Hpr in Hk, Hs.
+    assert (Hs' : snd (znth (splice (prender inner) 0 (map acore (sort_patches ps))) (k + 1 - 1) dcell) = Some (path, i))
+      by (replace (k + 1 - 1) with k by lia; exact Hs).
+    destruct (replacer_positions (prender inner) (sort_patches ps) k (k + 1) (path, i) (path, i) Hw)
+      as (a & b & Hab & Hb & Za & _ & Gs & _); try lia; try assumption.
+    cbn [offset_through]. rewrite Hri. cbn [bind]. rewrite (replacer_init_ok _ _ Hw). cbn [bind].
+    fold (shapes (sort_patches ps)). rewrite Gs. apply (IH a path i); try assumption; [lia|]. rewrite Za. exact Hs.
+Qed.
+
+Lemma make_patch_valid (t : text) s e new : 0 <= s <= e -> e <= len t ->
+  validate_patch t (make_patch t s e new) = true /\ p_old (make_patch t s e new) = sub t s e.
+Proof.
+  intros Hs He. unfold validate_patch, make_patch, p_start, p_end, p_old; cbn [fst snd].
+  rewrite text_eqb_refl. split; [reflexivity|]. apply py_slice_sub; lia.
+Qed.
+
+(* make_regexp_patches: patches made by make_patch from ordered, non-overlapping spans (what re.finditer
+   returns) are a well-formed patch list *)
+Fixpoint spans_ok (n ip : Z) (spans : list (Z * Z * text)) : Prop :=
+  match spans with
+  | [] => 0 <= ip <= n
+  | (s, e, _) :: r => 0 <= ip <= s /\ s <= e <= n /\ spans_ok n e r
+  end.
+Lemma regexp_patches_wf (t : text) : forall spans ip, spans_ok (len t) ip spans ->
+  wf_from t ip (map (fun sp => make_patch t (fst (fst sp)) (snd (fst sp)) (snd sp)) spans).
+Proof.
+  induction spans as [|[[s e] new] r IH]; intros ip H; cbn [spans_ok map wf_from fst snd] in *; [exact H|].
+  destruct H as (H1 & H2 & H3).
+  unfold make_patch, p_start, p_end, p_old; cbn [fst snd].
+  repeat split; try lia; [apply py_slice_sub; lia | apply IH; exact H3].
 Qed.
